@@ -4,5 +4,5 @@ import "jsverif/internal/core"
 
 func init() {
 	Register("C16", "Decides structural necessary conditions of 'every rejection is a well-formed diagnostic': (fmt) the error-code/format table and all Code.F call sites agree in arity and verb/type so no rejection degrades to code 1 'Runtime Failure' or a struct dump. (render) the standard-library calls of the renderer cannot panic; (raw) the element accesses that would surface as a raw Go runtime error instead of a diagnostic are guarded (= C02.elem). (linecol) LineAndColumn is a per-byte counter under the text's newline symbol and is recomputed whenever index or file change.",
-		c16fmt, c16render, c16stale, c16positioned, c16emptytype, c16linecol, c16newline, c16rebase, constFmtRule("C16.constfmt"), eofPairsRule("C16.eofpairs"), rewindRule("C16.rewind"), func(c *core.Ctx) { c02elemAs(c, "C16.raw") }, func(c *core.Ctx) { c02varidxAs(c, "C16.rawidx") })
+		convertAllRule("C16.convertall"), c16fmt, c16render, c16stale, c16positioned, c16emptytype, c16linecol, c16newline, c16rebase, constFmtRule("C16.constfmt"), eofPairsRule("C16.eofpairs"), rewindRule("C16.rewind"), func(c *core.Ctx) { c02elemAs(c, "C16.raw") }, func(c *core.Ctx) { c02varidxAs(c, "C16.rawidx") })
 }
